@@ -14,6 +14,11 @@ from common import MachineryError, Scratch, Verdict
 PID = "C11"
 INVARIANTS = ["OneTransition", "OutcomeStable", "NoItemIntoFinished", "BodyRunsOnce", "NoItemLeftPending",
               "ItemsBeforeBatch", "AnnouncedOnce", "Precedence", "ActiveMovedBeforeBody", "ActiveIsPending"]
+CONFIGS = ["own/all", "own/some", "own/none", "own/ierr", "own/raise", "own/braise", "own/new", "debug/all"]
+
+
+def finishing_with_items(o):
+    return any(x.startswith("b") for x in o["a"]) and any(x.startswith("i") for x in o["a"])
 
 
 def main():
@@ -39,49 +44,71 @@ def main():
         if tier == "thorough" and not os.environ.get("VERIF_SKIP_CY"):
             builds["cy"] = sc.build("cy")
         depth, maxi = (4, 2) if tier == "quick" else (5, 3)
-        hs, res = sat.tlc_histories("Batch", "Batch.cfg", sc, env={"DEPTH": str(depth), "MAXI": str(maxi)})
-        alarm = sat.model_alarm(res)
-        cases = [{"kind": h["kind"], "body": h["body"], "h": h["h"]} for h in hs if "h" in h]
-        del hs
-        if not cases:
-            raise MachineryError("TLC exported no histories:\n" + res.out[-2000:])
-        total = 0
-        nmis = 0
-        for bname, bdir in builds.items():
-            mism, n = sat.replay(bdir, "replay_c11.py", cases)
-            if n != len(cases):
-                raise MachineryError("replayed %d of %d histories on %s" % (n, len(cases), bname))
-            total += n
-            nmis += len(mism)
-            for m in mism:
-                c = cases[m["i"]]
-                j = m["diff"][0] if isinstance(m["diff"], list) and m["diff"] else 0
-                op = c["h"][j]["o"] if j < len(c["h"]) else "?"
-                verdict.report("C11." + op, "%s/%s" % (c["kind"], c["body"]),
-                               {"history": c, "got": m["got"], "first_diff": j, "build": bname})
-        if alarm and not verdict.violations:
-            raise MachineryError(alarm + " on Batch.tla but the real objects follow every prescribed history: the model is wrong\n" + res.out[-2000:])
-        finishing = lambda o: any(x.startswith("b") for x in o["a"])
-        with_items = lambda o: finishing(o) and any(x.startswith("i") for x in o["a"])
-        nontriv = sum(1 for c in cases if any(with_items(o) and j + 1 < len(c["h"]) for j, o in enumerate(c["h"])))
-        per_body = {}
-        ops = {}
-        for c in cases:
-            k = "%s/%s" % (c["kind"], c["body"])
-            per_body[k] = per_body.get(k, 0) + 1
-            for o in c["h"]:
-                ops[o["o"]] = ops.get(o["o"], 0) + 1
+        # quick: one TLC run over all configurations; thorough: one run per (kind, flush body) to bound memory
+        runs = ["*"] if tier == "quick" else CONFIGS
+        states = trans = total = nmis = nhist = nontriv = 0
+        model_ok = True
+        alarms = []
+        tlc_wall = 0.0
+        per_body, ops, samples, maxitems = {}, {}, [], 0
+        for only in runs:
+            env = {"DEPTH": str(depth), "MAXI": str(maxi)}
+            if only != "*":
+                env["ONLY"] = only
+            hs, res = sat.tlc_histories("Batch", "Batch.cfg", sc, env=env)
+            tlc_wall += res.wall
+            alarm = sat.model_alarm(res)
+            if alarm:
+                alarms.append((alarm, res.out[-2000:]))
+            model_ok = model_ok and res.ok
+            states += res.distinct
+            trans += res.generated
+            cases = [{"kind": h["kind"], "body": h["body"], "pre": h["pre"], "h": h["h"]} for h in hs if "h" in h]
+            del hs
+            if not cases:
+                raise MachineryError("TLC exported no histories (%s):\n%s" % (only, res.out[-2000:]))
+            res.out = ""
+            nhist += len(cases)
+            for bname, bdir in builds.items():
+                mism, n = sat.replay(bdir, "replay_c11.py", cases)
+                if n != len(cases):
+                    raise MachineryError("replayed %d of %d histories on %s" % (n, len(cases), bname))
+                total += n
+                nmis += len(mism)
+                for m in mism:
+                    c = cases[m["i"]]
+                    j = m["diff"][0] if isinstance(m["diff"], list) and m["diff"] else 0
+                    op = c["h"][j]["o"] if j < len(c["h"]) else "?"
+                    verdict.report("C11." + op, "%s/%s" % (c["kind"], c["body"]),
+                                   {"history": c, "got": m["got"], "first_diff": j, "build": bname})
+            for c in cases:
+                k = "%s/%s" % (c["kind"], c["body"])
+                per_body[k] = per_body.get(k, 0) + 1
+                nt = False
+                for j, o in enumerate(c["h"]):
+                    ops[o["o"]] = ops.get(o["o"], 0) + 1
+                    if o["o"] == "add":
+                        maxitems = max(maxitems, o["r"][2])
+                    if j + 1 < len(c["h"]) and finishing_with_items(o):
+                        nt = True
+                nontriv += nt
+            samples += cases[:1] + cases[len(cases) // 3: len(cases) // 3 + 1]
+            del cases
+        if alarms and not verdict.violations:
+            raise MachineryError(alarms[0][0] + " on Batch.tla but the real objects follow every prescribed history: the model is wrong\n" + alarms[0][1])
         cov = {
-            "states": res.distinct, "transitions": res.generated, "traces_validated_against_impl": total,
-            "samples": cases[:1] + cases[len(cases) // 3: len(cases) // 3 + 1] + cases[-1:],
-            "history_depth": depth, "max_items_per_batch": maxi, "histories": len(cases), "histories_per_kind_body": per_body,
-            "operation_instances": ops, "builds": list(builds),
-            "model_invariants": INVARIANTS, "model_ok": res.ok, "mismatching_histories": nmis,
+            "states": states, "transitions": trans, "traces_validated_against_impl": total,
+            "samples": samples[:6],
+            "history_depth": depth, "max_items_per_batch": maxi, "largest_item_index_created": maxitems,
+            "histories": nhist, "histories_per_kind_body": per_body,
+            "operation_instances": ops, "builds": list(builds), "tlc_runs": len(runs), "tlc_wall_s": round(tlc_wall, 1),
+            "model_invariants": INVARIANTS, "model_ok": model_ok, "mismatching_histories": nmis,
             "evaluations": total * depth, "distinct_nontrivial": nontriv,
             "rule": "every operation history of length %d over add/direct/flush/cancel(with,without error)/item.value/batch.value/batch.error/queries "
-                    "on batches 1..2 with <= %d items each, x 7 flush-body behaviours on a BatchBase subclass + the built-in DebugBatch; "
-                    "operations that change nothing are explored in one canonical order when consecutive; "
-                    "non-trivial = a batch with at least one item finishes and a further operation follows; evaluations = operation results compared" % (depth, maxi),
+                    "on batches 1..2 with <= %d items each, starting with 0 or 2 requests already made, x 7 flush-body behaviours on a BatchBase "
+                    "subclass + the built-in DebugBatch; operations that change nothing are explored in one canonical order and in runs of <= 2 "
+                    "when consecutive; non-trivial = a batch with at least one item finishes and a further operation follows; "
+                    "evaluations = operation results compared" % (depth, maxi),
             "exhaustive": True,
         }
         rc = verdict.finish()
@@ -89,7 +116,7 @@ def main():
                               assumptions=["histories are bounded by depth %d, operations address the first 2 batches of one kind, <= %d items per batch" % (depth, maxi),
                                            "the flush body behaves the same way for every batch of a history and does not re-enter flush()/cancel() of its own batch",
                                            "is_flushed() of a cancelled batch, is_cancelled() of a batch whose flush failed, is_empty() of a finished batch and "
-                                           "flush() of a cancelled batch are not prescribed by the property (only: the body must not run)",
+                                           "the result of flush() on a cancelled batch are not prescribed by the property (only: the body must not run)",
                                            "body executions are not observable on the built-in DebugBatch (compared on the harness subclass only)",
                                            "TLC and the replay harness are trusted"], tier_=tier)
         return rc
